@@ -200,8 +200,26 @@ fn analyze_used_function_names_and_type_names(
 pub(super) fn optimize_lir_sources_by_eliminating_unused_ones(
   Sources { symbol_table, global_variables, type_definitions, main_function_names, functions }: Sources,
 ) -> Sources {
-  let (used_str_names, used_fn_names, used_types) =
+  let (used_str_names, used_fn_names, mut used_types) =
     analyze_used_function_names_and_type_names(&functions, &main_function_names);
+  // A kept type definition mentions its parent and the types of its fields: those must be kept too,
+  // even when no function mentions them (e.g. the payload type of a variant that is only matched on).
+  loop {
+    let mut mentioned = HashSet::new();
+    for type_definition in type_definitions.iter().filter(|it| used_types.contains(&it.name)) {
+      if let Some(parent) = type_definition.parent_type {
+        mentioned.insert(parent);
+      }
+      for t in &type_definition.mappings {
+        collect_for_type_set(t, &mut mentioned);
+      }
+    }
+    let before = used_types.len();
+    used_types.extend(mentioned);
+    if used_types.len() == before {
+      break;
+    }
+  }
   Sources {
     symbol_table,
     global_variables: global_variables
